@@ -1,10 +1,10 @@
 package rules
 
 import (
-	"strings"
 	"go/token"
 	"go/types"
 	"sort"
+	"strings"
 
 	"golang.org/x/tools/go/ssa"
 
@@ -490,15 +490,17 @@ var _ = types.Typ
 // of them is the result. The step of the fold is the function that parses one count (strconv.ParseInt / ParseFloat)
 // and receives and returns the sums and the flag. For every way out of the step that is taken after a count was
 // parsed and that does not report an error:
-//   (i)  if the flag it returns can be false (the integer sum stays the result), the integer sum it returns is computed
-//        from the count and from the integer sum it received;
-//   (ii) if the flag it returns can be true (the float sum is the result), the float sum it returns is computed from the
-//        count and from the float sum it received; and if the flag it received can have been false there - the way out
-//        switches from the integer sum to the float sum - then either the float sum is kept up to date in integer
-//        mode as well (on every way out of kind (i) the float sum returned is computed from the count and the float sum
-//        received), or the float sum returned here is computed from the integer sum received, or the fold's caller
-//        combines both sums in the value it returns; and where the flag received can have been true already, the float
-//        sum returned is computed from the float sum received (the integer sum is stale in float mode).
+//
+//	(i)  if the flag it returns can be false (the integer sum stays the result), the integer sum it returns is computed
+//	     from the count and from the integer sum it received;
+//	(ii) if the flag it returns can be true (the float sum is the result), the float sum it returns is computed from the
+//	     count and from the float sum it received; and if the flag it received can have been false there - the way out
+//	     switches from the integer sum to the float sum - then either the float sum is kept up to date in integer
+//	     mode as well (on every way out of kind (i) the float sum returned is computed from the count and the float sum
+//	     received), or the float sum returned here is computed from the integer sum received, or the fold's caller
+//	     combines both sums in the value it returns; and where the flag received can have been true already, the float
+//	     sum returned is computed from the float sum received (the integer sum is stale in float mode).
+//
 // Otherwise the counts parsed before the switch are lost from the result. Dependence is data flow within the step
 // (operands, phis); the roles are found by shape (the parameter that an early way out hands back in each position).
 func (c *Ctx) ruleSumAll(rule string) {
